@@ -621,4 +621,104 @@ theorem opRead_ended (P : SProto Q) (s : Sys Q) (es : List SEv) (tmo : Option Na
   have := tryRead_res P _ _ _ hrc
   exact ⟨this.1, this.2, rfl, rfl⟩
 
+/-! ### which connection: nothing but the peer's events on the connection held changes its queue; only `reconnect` changes the connection -/
+
+/-- what a peer event does to the connection the transport holds -/
+def connPeer (P : SProto Q) (c : PConn Q) : PEv → PConn Q
+  | .deliver b => if c.live then c.feed P b else c
+  | .cut k => if c.live then { c with ended := some k, closed := k != .silence && P.kind == .doip } else c
+  | _ => c
+
+theorem applyPeer_conn (P : SProto Q) (s : Sys Q) (pe : PEv) : (applyPeer P s pe).conn = connPeer P s.conn pe := by
+  cases pe <;> simp only [applyPeer, connPeer] <;> split <;> rfl
+
+theorem applyPeer_nconn (P : SProto Q) (s : Sys Q) (pe : PEv) : (applyPeer P s pe).nconn = s.nconn := by
+  cases pe <;> simp only [applyPeer] <;> split <;> rfl
+
+theorem connPeer_idx (P : SProto Q) (c : PConn Q) (pe : PEv) : (connPeer P c pe).idx = c.idx := by
+  cases pe <;> simp only [connPeer] <;> split <;> rfl
+
+theorem foldl_connPeer_idx (P : SProto Q) (pes : List PEv) (c : PConn Q) : (pes.foldl (connPeer P) c).idx = c.idx := by
+  induction pes generalizing c with
+  | nil => rfl
+  | cons pe pes ih => simp only [List.foldl_cons, ih, connPeer_idx]
+
+/-- a wait changes the connection only through the peer's events on it -/
+theorem await_conn (P : SProto Q) (ready : Sys Q → Bool) (dl : Option Nat) (s : Sys Q) (es : List SEv) :
+    (∃ pes : List PEv, (await P ready dl s es).2.1.conn = pes.foldl (connPeer P) s.conn) ∧
+    (await P ready dl s es).2.1.nconn = s.nconn := by
+  induction es generalizing s with
+  | nil =>
+    unfold await
+    split
+    · exact ⟨⟨[], rfl⟩, rfl⟩
+    · split <;> exact ⟨⟨[], rfl⟩, rfl⟩
+  | cons e es ih =>
+    unfold await
+    split
+    · exact ⟨⟨[], rfl⟩, rfl⟩
+    · split
+      · split
+        · split
+          · exact ⟨⟨[], rfl⟩, rfl⟩
+          · exact ih _
+        · exact ih _
+      · rename_i pe _
+        obtain ⟨⟨pes, h⟩, hn⟩ := ih (applyPeer P s pe)
+        refine ⟨⟨pe :: pes, ?_⟩, by rw [hn, applyPeer_nconn]⟩
+        rw [h, applyPeer_conn]; rfl
+      · split <;> exact ⟨⟨[], rfl⟩, rfl⟩
+
+theorem await_idx (P : SProto Q) (ready : Sys Q → Bool) (dl : Option Nat) (s : Sys Q) (es : List SEv) :
+    (await P ready dl s es).2.1.conn.idx = s.conn.idx ∧ (await P ready dl s es).2.1.nconn = s.nconn := by
+  obtain ⟨⟨pes, h⟩, hn⟩ := await_conn P ready dl s es
+  exact ⟨by rw [h, foldl_connPeer_idx], hn⟩
+
+theorem tryAck_idx (P : SProto Q) (req : Bytes) (c c' : PConn Q) (r : PRes) (h : tryAck P req c = .done r c') : c'.idx = c.idx := by
+  unfold tryAck at h
+  repeat' split at h
+  all_goals first | (cases h; rfl) | cases h
+
+theorem tryAck_wait_idx (P : SProto Q) (req : Bytes) (c c' : PConn Q) (h : tryAck P req c = .wait c') : c'.idx = c.idx := by
+  unfold tryAck at h
+  repeat' split at h
+  all_goals first | (cases h; rfl) | cases h
+
+theorem tryRead_idx (P : SProto Q) (c c' : PConn Q) (r : PRes) (h : tryRead P c = .done r c') : c'.idx = c.idx := by
+  unfold tryRead at h
+  repeat' split at h
+  all_goals first | (cases h; rfl) | cases h
+
+theorem tryRead_wait_idx (P : SProto Q) (c c' : PConn Q) (h : tryRead P c = .wait c') : c'.idx = c.idx := by
+  unfold tryRead at h
+  repeat' split at h
+  all_goals first | (cases h; rfl) | cases h
+
+theorem opWrite_idx (P : SProto Q) (s : Sys Q) (es : List SEv) (req : Bytes) (tmo : Option Nat) :
+    (opWrite P s es req tmo).2.1.conn.idx = s.conn.idx ∧ (opWrite P s es req tmo).2.1.nconn = s.nconn := by
+  have hn : (putWire P s req).nconn = s.nconn := by
+    unfold putWire; simp only; split
+    · split <;> rfl
+    · rfl
+  unfold opWrite
+  simp only
+  split
+  · rename_i r c hc
+    exact ⟨by simp only; rw [tryAck_idx P req _ _ _ hc, putWire_idx], hn⟩
+  · rename_i c hc
+    generalize hr : await P (ackReady P req) _ _ es = r
+    have hi := await_idx P (ackReady P req)
+    have h1 : r.2.1.conn.idx = s.conn.idx ∧ r.2.1.nconn = s.nconn := by
+      rw [← hr]
+      refine ⟨by rw [(hi _ _ _).1]; simp only; rw [tryAck_wait_idx P req _ _ hc, putWire_idx], by rw [(hi _ _ _).2]; exact hn⟩
+    obtain ⟨w, s1, es1⟩ := r
+    simp only at h1
+    cases w <;> simp only
+    · split
+      · rename_i r2 c2 hc2
+        exact ⟨by simp only; rw [tryAck_idx P req _ _ _ hc2, h1.1], h1.2⟩
+      · rename_i c2 hc2
+        exact ⟨by simp only; rw [tryAck_wait_idx P req _ _ hc2, h1.1], h1.2⟩
+    all_goals (split <;> (try split) <;> exact h1)
+
 end Gallia.LossSys
